@@ -38,6 +38,11 @@ class Interpreter {
         continue;
       }
       this.impl.start_evaluating(line);
+      if (this.impl.get_state() === JsInterpreterState.Errored) {
+        // The error has to be taken before the interpreter can be called
+        // again: stop loading here and let start() report it.
+        return;
+      }
     }
     this.impl.start_evaluating("RUN");
   }
